@@ -179,6 +179,54 @@ def plan(tier, seed):
              "nrand": {"quick": 120, "thorough": 3000}[tier], "nopt": {"quick": 12, "thorough": 150}[tier]} for i in range(nsh)]
 
 
+def project_path(rec, rng):
+    """The same linking through the project layer: Project.optimize(clp_link_tolerance=...) must hand the tolerance on
+    (the aligned axis, and with it the number of clps, follows the model of this check)."""
+    import contextlib, io, shutil, tempfile, warnings
+    from pathlib import Path
+
+    import xarray as xr
+    from glotaran.project import Project
+
+    root = Path(tempfile.mkdtemp(prefix="vf-c09-project-"))
+    try:
+        with warnings.catch_warnings(), contextlib.redirect_stdout(io.StringIO()):
+            warnings.simplefilter("ignore")
+            proj = Project.open(root / "p")
+            axes = [[1.0, 2.0, 3.0, 4.0], [1.03, 2.03, 3.5], [0.97, 3.04, 4.6]]
+            t = np.linspace(0.0, 8.0, 12)
+            for k, g in enumerate(axes):
+                da = xr.DataArray(rng.standard_normal((t.size, len(g))), coords=[("time", t), ("spectral", np.array(g))])
+                proj.import_data(da.to_dataset(name="data"), dataset_name=f"d{k + 1}")
+            (proj.get_models_directory() / "m.yml").write_text(
+                "megacomplex:\n  mc:\n    type: decay-parallel\n    compartments: [s1, s2]\n    rates: [k.1, k.2]\n"
+                "dataset_groups:\n  default:\n    link_clp: true\n"
+                "dataset:\n  d1: {megacomplex: [mc]}\n  d2: {megacomplex: [mc]}\n  d3: {megacomplex: [mc]}\n")
+            (proj.get_parameters_directory() / "p.yml").write_text("k:\n  - 1.3\n  - 0.2\n")
+            for tol in (0.0, 0.05, 0.1, 0.6):
+                ctx = {"axes": axes, "clp_link_tolerance": tol, "path": "Project.optimize"}
+                try:
+                    res = proj.optimize("m", "p", result_name=f"r{int(tol * 100)}", maximum_number_function_evaluations=1, clp_link_tolerance=tol)
+                except Exception as e:  # noqa
+                    outs = [o for o in AL.alignments(axes, tol, "nearest") if o != "ambiguous"]
+                    if not outs or any(o == "error" for o in outs):
+                        continue
+                    rec.violation(f"project-path:raises:{type(e).__name__}", ctx, f"{type(e).__name__}: {str(e)[:200]}")
+                    continue
+                rec.count("project_path_runs")
+                if float(res.scheme.clp_link_tolerance) != tol:
+                    rec.violation("project-path:tolerance-not-handed-on", ctx, f"the scheme of the result carries clp_link_tolerance {res.scheme.clp_link_tolerance!r}")
+                    continue
+                outs = [o for o in AL.alignments(axes, tol, "nearest") if o not in ("ambiguous", "error")]
+                if "ambiguous" in AL.alignments(axes, tol, "nearest") or len(outs) != 1:
+                    continue
+                want = 2 * len(outs[0][0])
+                if int(res.number_of_clps) != want:
+                    rec.violation("project-path:number-of-clps", ctx, f"number_of_clps {res.number_of_clps}, the aligned axis {outs[0][0]} has {len(outs[0][0])} points x 2 clps = {want}")
+    finally:
+        shutil.rmtree(root, ignore_errors=True)
+
+
 def run_shard(spec, rec):
     attach(rec)
     from vf.props import c03
@@ -186,6 +234,8 @@ def run_shard(spec, rec):
     c03.attach(rec)
     S.model_class()
     rng = rng_for(spec)
+    if spec["shard"] == 0:
+        project_path(rec, rng)
     grid = list(range(spec["npts"]))
     first = list(subsets(grid, spec["kmax"]))
     second = [tuple(v + off for v in s) for s in subsets(grid, spec["kmax"]) for off in (0.0, 0.3, 0.5)]
